@@ -570,4 +570,40 @@ static void gen_hostile(vh_rng_t *rng)
   if (vh_chance(rng, 1, 5)) {
     app_sched.destroy_at_step = vh_range(rng, 1, 30);
   }
+  /* the lookup order comes from the system configuration: the channel's own string is replaced by every reinit,
+   * also while address lookups are walking it */
+  if (vh_chance(rng, 1, 3)) {
+    app_cfg.lookups_via = 1;
+    if (vh_chance(rng, 1, 2)) {
+      gen_add_action((int64_t)(vh_rand64(rng) % (uint64_t)(horizon / 2 + 1)), AA_REINIT, 0, 0);
+    }
+  }
+  /* burst: several requests go out in the same instant over shared sockets and all their replies (answers mixed
+   * with replies that cause a re-send: SERVFAIL, truncation, FORMERR, bad cookie) come back in ONE read pass */
+  if (vh_chance(rng, 1, 5)) {
+    int     d  = vh_range(rng, 1, 30);
+    int64_t t0 = vh_chance(rng, 1, 2) ? 0 : (int64_t)vh_below(rng, 200000);
+    for (i = 0; i < sim_nsrv; i++) {
+      static const int bm[] = { MOOD_FLAKY, MOOD_ERR, MOOD_TC, MOOD_FORMERR, MOOD_BADCOOKIE, MOOD_GOOD };
+      sim_srv[i].delay_min_ms = sim_srv[i].delay_max_ms = d;
+      if (vh_chance(rng, 1, 2)) {
+        gen_srv_mood(&sim_srv[i], bm[vh_below(rng, 6)], rng);
+        sim_srv[i].delay_min_ms = sim_srv[i].delay_max_ms = d;
+      }
+    }
+    sim_no_subms_jitter = 1;
+    if (vh_chance(rng, 2, 3)) {
+      app_cfg.udp_max_queries = 0;
+    }
+    app_cfg.rotate = 0;
+    for (i = 0; i < app_nact; i++) {
+      if (app_act[i].kind == AA_START) {
+        app_act[i].t = t0;
+      }
+    }
+    while (app_ntok < 6 && app_ntok < app_max_tokens) {
+      gen_add_token(rng, t0);
+    }
+    sim_note("hostile_burst_same_read_pass");
+  }
 }
